@@ -187,23 +187,24 @@ READER_LOOPS = {
 
 CHECKS["C08"] = {
     "crates": ["netconf"],
-    "explanation": "Each reply reader (EmptyReply, DataReply<Opaque>, BareReply, load_configuration::Reply) is executed symbolically over replies of "
-                   "up to 2 grammar items, one harness per concrete first item: (quick) the empty reply; <ok/> or <data> followed by nothing or by "
-                   "<ok/> / <rpc-error> of symbolic severity / <data>; first items that end the reading (unexpected for that reader) followed by "
-                   "any item; for load-configuration the reply without results, the empty results element and <rpc-error>(symbolic severity) "
-                   "followed by <ok/> - the sequence the defect repaired by 808e00a lived in; (thorough) adds <rpc-error>(error|warning) first "
-                   "for BareReply, the remaining terminating first items (<ok></ok>, foreign <ok/>, other element, stray text) and <ok/>,<ok/> "
-                   "inside load-configuration-results.  Asserted: success only with the positive indication and without rpc-error(error); "
-                   "reported errors are exactly the reply's, in order.  Compositional: rpc::Error::read_xml and Opaque::read_xml are replaced by "
-                   "summary stubs whose preconditions are asserted; Opaque::read_xml is checked on its own in c08_opaque_reader.",
+    "explanation": "Each reply reader (EmptyReply, DataReply<Opaque>, BareReply, load_configuration::Reply) is executed symbolically over every reply "
+                   "whose content is a sequence of at most 2 elements: the element sequences are walked by a concrete loop inside one harness per "
+                   "reader, the leaf values (severity of every <rpc-error>, value 0..3 of a <load-error-count>) are symbolic.  Quick: sequences "
+                   "over {<ok/>, <rpc-error>, <data>} (13 per reader; load-configuration: {<ok/>, <rpc-error>, <load-error-count>} inside "
+                   "<load-configuration-results>, plus the reply without a results element and the empty one).  Thorough: all 8 element kinds of "
+                   "the reply grammar (adds <ok></ok>, comment, unexpected element, <ok/> in a foreign namespace, stray text: 73 sequences per "
+                   "reader; load-configuration 6 kinds, 43 sequences).  Asserted for every sequence: success only with the reader's positive "
+                   "indication and without an rpc-error of severity error before it (BareReply: without any rpc-error); reported errors are "
+                   "exactly the reply's rpc-errors, in order.  Compositional: rpc::Error::read_xml and Opaque::read_xml are replaced by summary "
+                   "stubs whose preconditions are asserted; Opaque::read_xml is checked on its own in c08_opaque_reader.",
     "assumptions": ["event-level: the quick-xml model replays event tapes; byte-level tokenisation is quick-xml's",
+                    "replies with more than 2 elements are outside the claim; the element *sequences* are enumerated, not symbolic (a tape window with a symbolic "
+                    "element kind costs 300-500 s per reader and 30 GB, DESIGN.md 9.2/9.6)",
                     "summary stub for rpc::Error::read_xml (asserts it is called on an <rpc-error> start tag, consumes the element, returns the severity the tape declares); "
-                    "the real rpc::Error::read_xml (c08_rpc_error_reader) did not finish and is NOT covered",
+                    "the real rpc::Error::read_xml is NOT covered (c08_rpc_error_reader and c08_rpc_error_reader_layouts run out of memory; kept as experimental)",
                     "summary stub for Opaque::read_xml in the outer-reader harnesses (asserts it is called on <data>, consumes the element); the real one is checked in c08_opaque_reader",
-                    "Errors::new / Errors::push (one-line Vec wrappers) replaced by a preallocated, never-reallocating version that asserts len < 4",
-                    "NOT covered (harnesses kept as 'experimental', they exceed 30 GB / 50 min): replies whose first item is an <rpc-error> or a comment for "
-                    "EmptyReply and DataReply (e.g. rpc-error followed by <ok/> or <data>), and two-item contents of <load-configuration-results> other than "
-                    "rpc-error,<ok/> and <ok/>,<ok/>"],
+                    "Errors::new / Errors::push (one-line Vec wrappers) replaced by a preallocated, never-reallocating version that asserts len < 4"],
+    "design_ref": "DESIGN.md 9.6",
     "harnesses": [],
 }
 
@@ -405,11 +406,14 @@ CHECKS["C12"] = {
 CHECKS["C13"] = {
     "crates": ["netconf"],
     "explanation": "2-safety harnesses at event level: a reader is run on a tape and on information-preserving rewrites of it and must reach the same "
-                   "outcome: a comment inserted before / after the item of a one-item reply (one harness per item kind: quick <ok/>, rpc-error, "
-                   "<data>; thorough all 8 kinds); <ok/> vs <ok></ok>; an XML declaration in front of <rpc-reply>.",
+                   "outcome: a comment inserted before / after the item of a one-item reply (EmptyReply, one harness per item kind: quick <ok/>, "
+                   "rpc-error, <data>; thorough all 8 kinds); a comment before / after a <capability> inside <capabilities>; <ok/> vs <ok></ok>; "
+                   "an XML declaration in front of <rpc-reply>; whitespace around the <session-id> text and around a <capability> URI.",
     "assumptions": ["namespace prefix vs default namespace, attribute quoting/order and inter-element whitespace are resolved inside quick-xml and invisible at event level",
-                    "NOT covered: whitespace around token-valued text (capability URIs, numbers), the hello reader, and the configuration readers of the agent "
-                    "(which match <reject/> etc. as empty-element events only, like the two sites repaired by 1fdf0d6)"],
+                    "NOT covered: whitespace around the token-valued texts of <rpc-error> children and of message-id, comments inside DataReply / BareReply / "
+                    "load-configuration results and between the children of <hello>, and the configuration readers of the agent (which match <reject/> etc. as "
+                    "empty-element events only, like the two sites repaired by 1fdf0d6)"],
+    "design_ref": "DESIGN.md 9.6, findings in 9.4",
     "harnesses": [
     ] + [
         harness("c13_comment_insertion_%s" % k, functions=["EmptyReply::read_xml"], bounds="reply with one item (%s); comment inserted before or after it" % k,
